@@ -354,6 +354,49 @@ func runCase(rt *rapid.T) {
 				reqs = append(reqs, pendingReq{f, sess, id, p, h})
 			}
 			trace = append(trace, "sigreq("+id+","+sess+")")
+		case op < 78: // faulty: shift the boundary between the payload's type URL and its value
+			// Members sign the digest of (id, type URL, value, ...). If that digest does not separate
+			// the two fields, (T, V) and (T+V[:k], V[k:]) are signed alike. The faulty member has
+			// everybody sign a harmless looking payload A whose bytes end in "/<message name>" followed
+			// by the encoding of another payload, then presents the shifted split B with A's signatures.
+			id := ids[rapid.IntRange(0, len(ids)-1).Draw(rt, "sid")]
+			evil := "evil-" + id
+			encEvil, _ := proto.Marshal(wrapperspb.String(evil))
+			filler := "zz/google.protobuf.StringValue"
+			contentA := filler + string(encEvil)
+			anyA := payloadAny(contentA)
+			cut := len(anyA.GetValue()) - len(encEvil)
+			anyB := &anypb.Any{TypeUrl: anyA.GetTypeUrl() + string(anyA.GetValue()[:cut]), Value: anyA.GetValue()[cut:]}
+			var frames []*memnet.Frame
+			for _, h := range honest {
+				f := main.net.Inject(peers[faulty], peers[h], protoSig, &pb.BCastSigRequest{Id: id, Message: anyA})
+				main.net.Take(main.net.NPending() - 1)
+				main.net.Deliver(f)
+				frames = append(frames, f)
+				reqs = append(reqs, pendingReq{f, "A", id, contentA, h})
+			}
+			synctest.Wait()
+			harvest()
+			list := make([][]byte, n)
+			complete := true
+			for m := 0; m < n; m++ {
+				if m == faulty {
+					list[m] = ownSig(main.session, id, contentA)
+				} else {
+					list[m] = sigs[sigKey{"A", id, contentA, m}]
+				}
+				if list[m] == nil {
+					complete = false
+				}
+			}
+			if complete {
+				for _, h := range honest {
+					main.net.Inject(peers[faulty], peers[h], protoMsg, &pb.BCastMessage{Id: id, Message: anyB, Signatures: list})
+					sentMsgFrames++
+				}
+				vstat.Count("boundary_shift_sent", 1)
+			}
+			trace = append(trace, fmt.Sprintf("boundary_shift(%s,complete=%v)", id, complete))
 		case op < 92: // faulty: BCastMessage with an assembled signature list
 			id := ids[rapid.IntRange(0, len(ids)-1).Draw(rt, "mid")]
 			if rapid.IntRange(0, 14).Draw(rt, "unregisteredMsg") == 0 {
